@@ -61,16 +61,32 @@ theorem getLast?_mem {α} : ∀ (l : List α) (x : α), l.getLast? = some x → 
   intro l x h
   exact List.mem_of_getLast? h
 
+/-- normalising an in-bounds non-negative list changes nothing -/
+theorem normNeg_id (n : Nat) (l : List Int) (hb : ∀ x ∈ l, 0 ≤ x) : normNeg n l = l := by
+  unfold normNeg
+  induction l with
+  | nil => rfl
+  | cons a t ih =>
+    have ha := hb a (List.mem_cons_self ..)
+    simp only [List.map_cons]
+    rw [if_neg (by omega), ih (fun x hx => hb x (List.mem_cons_of_mem _ hx))]
+
+theorem mem_normNeg (n : Nat) (l : List Int) (y : Int) (hy : y ∈ normNeg n l) :
+    ∃ x ∈ l, y = if x < 0 then x + n else x := by
+  unfold normNeg at hy
+  obtain ⟨x, hx, rfl⟩ := List.mem_map.mp hy
+  exact ⟨x, hx, rfl⟩
+
 /-- **Both read strategies return exactly the requested positions.** -/
-theorem axisSelect_arr (n : Nat) (l : List Int) (hne : l ≠ []) (hinc : strictInc l = true)
+theorem axisSelectArr_spec (n : Nat) (l : List Int) (hne : l ≠ []) (hinc : strictInc l = true)
     (hb : ∀ x ∈ l, 0 ≤ x ∧ x < n) :
-    axisSelect n (.arr l) = .ok (.many (l.map Int.toNat)) := by
+    axisSelectArr n l = .ok (.many (l.map Int.toNat)) := by
   cases l with
   | nil => exact absurd rfl hne
   | cons a t =>
     obtain ⟨hexp, hmem, hhead⟩ := runs_spec (a :: t) hinc
     obtain ⟨e0, rest, hr⟩ := hhead a t rfl
-    simp only [axisSelect, hinc, not_true_eq_false, if_false]
+    simp only [axisSelectArr, hinc, not_true_eq_false, if_false]
     split
     · -- span-and-postselect
       rename_i hcond
@@ -135,5 +151,41 @@ theorem axisSelect_arr (n : Nat) (l : List Int) (hne : l ≠ []) (hinc : strictI
       have hflat' : ((runs (a :: t)).map (fun x => match x with
           | (a, b) => (readSlice n a b 1, (b - a).toNat))).flatMap (·.1) = a :: t := hflat
       simp only [hall', hflat', if_true]
+
+/-- an integer list whose entries (negative ones counted from the end) are in bounds: the axis is
+    read through `axisSelectArr` on the normalised list -/
+theorem axisSelect_arr_norm (n : Nat) (l : List Int) (hne : l ≠ [])
+    (hb : ∀ x ∈ normNeg n l, 0 ≤ x ∧ x < n) :
+    axisSelect n (.arr l) = axisSelectArr n (normNeg n l) := by
+  cases l with
+  | nil => exact absurd rfl hne
+  | cons a t =>
+    simp only [axisSelect]
+    have : (normNeg n (a :: t)).any (fun v => decide (v < 0 ∨ v ≥ (n : Int))) = false := by
+      rw [List.any_eq_false]
+      intro x hx
+      have := hb x hx
+      simp only [decide_eq_true_eq]; omega
+    rw [this]; rfl
+
+/-- entries that are out of bounds even after counting from the end are refused (IndexError) -/
+theorem axisSelect_arr_oob (n : Nat) (l : List Int) (h : ∃ x ∈ normNeg n l, x < 0 ∨ x ≥ (n : Int)) :
+    axisSelect n (.arr l) = .error .index := by
+  cases l with
+  | nil => obtain ⟨x, hx, _⟩ := h; simp [normNeg] at hx
+  | cons a t =>
+    simp only [axisSelect]
+    have : (normNeg n (a :: t)).any (fun v => decide (v < 0 ∨ v ≥ (n : Int))) = true := by
+      rw [List.any_eq_true]
+      obtain ⟨x, hx, hbad⟩ := h
+      exact ⟨x, hx, by simpa using hbad⟩
+    rw [this]; rfl
+
+theorem axisSelect_arr (n : Nat) (l : List Int) (hne : l ≠ []) (hinc : strictInc l = true)
+    (hb : ∀ x ∈ l, 0 ≤ x ∧ x < n) :
+    axisSelect n (.arr l) = .ok (.many (l.map Int.toNat)) := by
+  have hid := normNeg_id n l (fun x hx => (hb x hx).1)
+  rw [axisSelect_arr_norm n l hne (by rw [hid]; exact hb), hid]
+  exact axisSelectArr_spec n l hne hinc hb
 
 end LazyIx
